@@ -353,9 +353,22 @@ MARK_ALPHABETS = [
 ]
 
 
-def rand_tm_parts(rng: random.Random, max_states: int = 4, alphabets=None, min_states: int = 2):
+# state names of MIXED, mutually unorderable types in one machine (a state is any hashable): sorting,
+# min/max, "<" on raw names — e.g. to build a message or to pick a representative — raise TypeError
+MIXED_NAMES = [0, "q1", ("copy", 2), frozenset({3}), 1, "", (4,), -1, "acc", (0, "q"), frozenset(), 7]
+
+
+def rand_mixed_names(rng: random.Random, n: int) -> list:
+    """n names of at least two different, mutually unorderable types (when n ≥ 2)."""
+    while True:
+        names = rng.sample(MIXED_NAMES, n)
+        if n < 2 or len({type(x) for x in names}) >= 2:
+            return names
+
+
+def rand_tm_parts(rng: random.Random, max_states: int = 4, alphabets=None, min_states: int = 2, names_fn=None):
     n = rng.randint(min_states, max_states)
-    names = rand_names(rng, n)
+    names = (names_fn or rand_names)(rng, n)
     if len(names) < n:  # the small adversarial pools stop at 5 names
         names = STATE_POOLS[rng.randrange(4)](n)
     n = len(names)
@@ -437,8 +450,8 @@ def rand_ntm(rng: random.Random, max_states: int = 4, min_states: int = 2) -> NT
 
 def rand_mntm(rng: random.Random, max_states: int = 4, n_tapes: Optional[int] = None,
               deterministic: Optional[bool] = None, allow_empty_list: bool = True, alphabets=None,
-              min_states: int = 2) -> MNTM:
-    names, isy, tsy, blank, finals, nonfinal, init = rand_tm_parts(rng, max_states, alphabets, min_states)
+              min_states: int = 2, names_fn=None) -> MNTM:
+    names, isy, tsy, blank, finals, nonfinal, init = rand_tm_parts(rng, max_states, alphabets, min_states, names_fn)
     nt = n_tapes or rng.choice([1, 1, 2, 2, 3])
     if deterministic is None:
         deterministic = rng.random() < 0.3
